@@ -14,6 +14,7 @@ USER_GROUPS = [
     ("lower-case", [["k"], ["e", "d"]]),
     ("overlapping", [["K", "E"], ["E", "G"]]),
     ("three-groups", [["P"], ["G", "A"], ["K", "E", "P", "G"]]),
+    ("repeated-members", [["K", "E", "K"], ["g", "G"], ["P", "p", "P", "E"]]),
 ]
 
 
